@@ -2,7 +2,11 @@ from . import register
 
 register("C12",
          lean_modules=["GtModel.Props.C12"],
-         theorems=["GtModel.C12.read_print", "GtModel.C12.read_print_json5_bmp", "GtModel.C12.json5_astral_counterexample",
+         theorems=["GtModel.C12.read_print",
+                   # JSON5, current loader (json5.load + JSON5._combine_surrogates): all code points
+                   "GtModel.C12.read_print_json5", "GtModel.C12.json5_library_splits",
+                   # HISTORICAL WITNESSES: the json5 library alone = the loader before the repair (kept; used in the proof above)
+                   "GtModel.C12.read_print_json5_bmp", "GtModel.C12.json5_astral_counterexample",
                    "GtModel.C12.pair_hypothesis_needed", "GtModel.C12.csv_machine", "GtModel.C12.csv_read_print",
                    "GtModel.C12.csv_cr_counterexample"],
          streams=["roundtrip"],
@@ -15,4 +19,6 @@ register("C12",
                   "roundtrip stream on the real printed text, not proved"],
          partial="YAML, plist and XML round trips are covered by the roundtrip stream only (their parsers and formatters are not modelled); "
                  "JSON5 is proved for the JSON subset the printer emits (JSON5-only source syntax is exercised by the stream); "
+                 "read_print_json5 is the statement about the CURRENT JSON5 loader (all code points); read_print_json5_bmp and "
+                 "json5_astral_counterexample describe the json5 library alone (the pre-fix loader) and are historical witnesses; "
                  "tree1 == tree2 beyond mapping depth 12 is not evaluated (== is exponential in mapping depth), data equality is")
